@@ -49,7 +49,7 @@ ASSUMPTIONS = [
     "values outside the parameter alphabets and points outside the lattices are not explored",
     "Kenamond2 vectors are restricted to the documented admissible set (outer detonators outside the inner sphere, detonation times above the documented bound); DSD vectors to r_i > alpha_i/D_CJ_i",
     "a detonator that another documented wave reaches before it fires (allowed by the documented conditions) is required to satisfy t <= t_d, not t = t_d",
-    "at a lattice point lying exactly on a locus where two arrival branches cross (gradient undefined, located from the returned values as a concave kink) the eikonal equation is evaluated on both sides of it, 1e-2 L away",
+    "at a lattice point lying on, or within a stencil width of, a locus where two arrival branches cross (gradient undefined; recognised from the returned values as a concave kink) the eikonal equation is evaluated on both sides of it, 1e-2 L away, instead",
 ]
 
 K = {"quick": {"Kenamond1": 4, "Kenamond2": 2, "Kenamond3": 2, "CylindricalExpansion": 7},
@@ -57,9 +57,9 @@ K = {"quick": {"Kenamond1": 4, "Kenamond2": 2, "Kenamond3": 2, "CylindricalExpan
 
 STEPS = (1e-3, 1e-4, 1e-5)        # x L
 # Tolerances (class A, closed form).  Measured on the thorough lattice of the unchanged tree (see report):
-TOL_EIK = 1e-6                    # worst |grad t| D - 1 away from C1-not-C2 loci: 2.3e-9
-TOL_EIK_C1 = 1e-4                 # within 6e-3 L of Kenamond3's shadow boundary (t is C1, not C2 there): 8.1e-6
-TOL_REL = 1e-9                    # relative slack of every inequality |dt| <= |dx|/D (exact up to rounding: <= 3e-16 measured)
+TOL_EIK = 1e-6                    # worst | |grad t| D - 1 | away from C1-not-C2 loci: 3.8e-11 (4th-order stencil, thorough lattice)
+TOL_EIK_C1 = 1e-4                 # within 6e-3 L of Kenamond3's shadow boundary (t is C1, not C2 there): 1.2e-6; also used beside kinks
+TOL_REL = 1e-9                    # relative slack of every inequality |dt| <= |dx|/D (exact up to rounding; no excess measured on 2.9e8 pairs)
 TOL_ABS = 1e-13                   # x time scale; absolute rounding floor of a burn time
 # Kenamond3 only: conditioning-aware absolute floor x_c13_burn.k3_cond_floor (arccos near 1 at the obstacle surface and on
 # the axis behind the obstacle loses up to half the digits: measured 7.5e-9 one ulp off the surface, 2.2e-8 on the axis)
@@ -321,6 +321,17 @@ def run_task(task):
     bound = dist / np.where(sp > 0, sp, 1.0) * (1.0 + TOL_REL) + floor + np.repeat(cfl, S.shape[1]) + cfs
     exc = np.where(valid, dt - bound, -np.inf)
     cnt("local_segments", int(valid.sum()))
+    # calibration: how much of the absolute rounding floor is used by the correct code (1e-6 units; > 1e6 would be a violation)
+    cal = [0.0]
+
+    def used(dt_, dist_, sp_, fl_, ok_):
+        with np.errstate(all="ignore"):
+            u_ = np.where(ok_, (dt_ - dist_ / np.where(sp_ > 0, sp_, np.inf)) / fl_, 0.0)
+        u_ = u_[np.isfinite(u_)]
+        if u_.size:
+            cal[0] = max(cal[0], float(u_.max()))
+
+    used(dt, dist, sp, floor + np.repeat(cfl, S.shape[1]) + cfs, valid & ~ax_rep)
     for locus, mask in (("axis_behind_obstacle", ax_rep), ("elsewhere", ~ax_rep)):
         e = np.where(mask, exc, -np.inf)
         if e.size and e.max() > 0:
@@ -331,10 +342,15 @@ def run_task(task):
     # ---------------------------------------------------------------- eikonal
     _, grads = gradients(fam, c, P, F, L, dets)
     best = np.full(N, np.inf)
+    raw = np.full(N, np.inf)            # without the noise allowance: calibration statistic only
     nuse = np.zeros(N, int)
     for h, usable, G in grads:
         r = eik_residual(fam, c, P, G)
         r = np.where(np.isnan(r), np.inf, r)
+        # rounding noise of the difference quotient where the documented formula is ill-conditioned (Kenamond3 only; cfl is
+        # 4e-15 at generic points, up to 1e-7 R/D on the axis behind the obstacle): 16 values / (12 h), times D
+        raw = np.where(usable, np.minimum(raw, r), raw)
+        r = np.maximum(r - 1.5 * cfl * B.local_speed(fam, c, P) / h, 0.0)
         best = np.where(usable, np.minimum(best, r), best)
         nuse += usable
     tol = np.full(N, TOL_EIK)
@@ -353,40 +369,40 @@ def run_task(task):
     cnt("eikonal_points", int(checked.sum()))
     cnt("eikonal_skipped_interface_or_detonator", int(((~checked) & inexp).sum()))
     failing = checked & (best > tol)
-    # kink test on the failing points: one-sided slopes along some axis disagree by the same amount at the two smallest steps
+    # A failing point may lie on, or within a stencil width of, a locus where two arrival branches cross (the minimum of
+    # two smooth arrival times: a *concave* kink, gradient undefined).  It is excused only if (a) the second difference
+    # over a usable stencil is negative along some axis (concave; a convex kink would be a late arrival), and
+    # (b) the eikonal equation holds on BOTH sides of it, 1e-2 L (or, if another kink sits there, 2.3e-2 L) away along
+    # that axis.  A field that is wrong on an open set fails (b).
     kink = np.zeros(N, bool)
     kaxis = np.zeros(N, int)
     if failing.any():
-        idx = np.where(failing)[0]
-        D = B.local_speed(fam, c, P)
-        for i in idx:
-            jumps = []
-            for k in (1, 2):
-                h = STEPS[k] * L
-                row = []
+        Dl = B.local_speed(fam, c, P)
+        for i in np.where(failing)[0]:
+            best_d2, best_ax = 0.0, 0
+            for k, (h, usable, G) in enumerate(grads):          # any usable stencil that contains the kink sees it
+                if not usable[i]:
+                    continue
                 for ax in range(d):
                     j = 1 + k * 4 * d + ax * 4
-                    sm = (f0[i] - F[i, j + 1]) / h
-                    spl = (F[i, j + 2] - f0[i]) / h
-                    row.append((spl - sm) * D[i])
-                jumps.append(row)
-            j1, j2 = np.array(jumps[0]), np.array(jumps[1])
-            ax = int(np.argmax(np.abs(j2)))
-            # concave (a minimum of smooth arrival times), of size independent of h
-            if j2[ax] < -1e-3 and j1[ax] < -1e-3 and 0.5 <= j1[ax] / j2[ax] <= 2.0:
+                    d2 = (F[i, j] + F[i, j + 3] - 2.0 * f0[i]) / (2.0 * h) * Dl[i]
+                    if d2 < best_d2:
+                        best_d2, best_ax = d2, ax
+            if best_d2 < -1e-7:
                 kink[i] = True
-                kaxis[i] = ax
+                kaxis[i] = best_ax
     cnt("kink_points", int(kink.sum()))
     bad = failing & ~kink
     if kink.any():
-        # the equation must hold on both sides of the kink, 1e-2 L away along the axis that sees it
         idx = np.where(kink)[0]
+        DISP = (1e-2, 2.3e-2)
         Q = []
         for i in idx:
             for sgn in (-1.0, 1.0):
-                q = P[i].copy()
-                q[kaxis[i]] += sgn * 1e-2 * L
-                Q.append(q)
+                for dsp in DISP:
+                    q = P[i].copy()
+                    q[kaxis[i]] += sgn * dsp * L
+                    Q.append(q)
         Q = np.array(Q)
         if fam == "Kenamond3":
             Q = B.keep_outside(Q, c["R"])
@@ -394,17 +410,24 @@ def run_task(task):
         _, gq = gradients(fam, c, Q, FQ, L, dets)
         bq = np.full(len(Q), np.inf)
         nq = np.zeros(len(Q), int)
+        cfq = B.k3_cond_floor(c, Q) if fam == "Kenamond3" else np.zeros(len(Q))
         for h, usable, G in gq:
             r = eik_residual(fam, c, Q, G)
             r = np.where(np.isnan(r), np.inf, r)
+            r = np.maximum(r - 1.5 * cfq * B.local_speed(fam, c, Q) / h, 0.0)
             bq = np.where(usable, np.minimum(bq, r), bq)
             nq += usable
         cnt("kink_side_points", int((nq > 0).sum()))
-        badq = (nq > 0) & (bq > TOL_EIK_C1)
-        if badq.any():
-            j = int(np.argmax(np.where(badq, bq, -1.0)))
+        chk = (nq > 0).reshape(len(idx), 2, len(DISP))
+        okq = ((nq > 0) & (bq <= TOL_EIK_C1)).reshape(len(idx), 2, len(DISP))
+        # a side fails when it has checkable points and none of them satisfies the equation
+        side_bad = chk.any(axis=2) & ~okq.any(axis=2)
+        cnt("kink_points_without_checkable_side", int((~chk.any(axis=2)).all(axis=1).sum()))
+        if side_bad.any():
+            ii, ss = np.where(side_bad)
+            j = int(ii[0]) * 2 * len(DISP) + int(ss[0]) * len(DISP)
             V.append(viol(fam, kw, "burn:eikonal", {"region": int(B.region(fam, c, Q[j:j + 1])[0]), "locus": "beside_kink"},
-                          bq[j], TOL_EIK_C1, point=Q[j], n_points=int(badq.sum())))
+                          min(float(bq[j]), 1e300), TOL_EIK_C1, point=Q[j], kink_point=P[idx[int(ii[0])]], n_points=int(side_bad.any(axis=1).sum())))
     if bad.any():
         for locus, lm in (("axis_behind_obstacle", axis), ("smooth", ~axis)):
             for rg in sorted(set(reg[bad & lm].tolist())):
@@ -448,6 +471,7 @@ def run_task(task):
         cnt("continuity_pairs_" + kind, int(ok.sum()))
         e = np.where(ok, dt - bound, np.inf)
         onax = (B.k3_axis_behind(c, A) | B.k3_axis_behind(c, Bq)) if fam == "Kenamond3" else np.zeros(len(A), bool)
+        used(dt, dist, sp, bound - dist / sp * (1.0 + TOL_REL), ok & ~onax)
         sg = straight_ray(A, fa) | straight_ray(Bq, fb)
         for locus, m in (("axis_behind_obstacle", onax), ("elsewhere", ~onax)):
             em = np.where(m, e, -np.inf)
@@ -499,6 +523,7 @@ def run_task(task):
         ok &= (sp > 0) & (dist > 0)
         npairs += int(ok.sum())
         e = np.where(ok, dt - bound, -np.inf)
+        used(dt, dist, sp, floor + cfl[i] + cfl[i + 1:], ok & ~axp)
         if (e > 0).any():
             for locus, m in (("axis_behind_obstacle", axp), ("elsewhere", ~axp)):
                 em = np.where(m, e, -np.inf)
@@ -529,8 +554,10 @@ def run_task(task):
     if checked.any():
         sm = checked & ~kink & ~axis & (tol == TOL_EIK)
         c1 = checked & ~kink & ~axis & (tol == TOL_EIK_C1)
-        C["max_eik_residual_1e-15"] = int(min(1e18, 1e15 * float(np.max(np.where(sm, best, 0.0)))))
-        C["max_eik_residual_near_shadow_1e-15"] = int(min(1e18, 1e15 * float(np.max(np.where(c1, best, 0.0))))) if c1.any() else 0
+        okp = best <= tol
+        C["max_eik_residual_1e-15"] = int(min(1e18, 1e15 * float(np.max(np.where(sm & okp & (cfl < 1e-13 * T), raw, 0.0)))))
+        C["max_eik_residual_near_shadow_1e-15"] = int(min(1e18, 1e15 * float(np.max(np.where(c1 & okp, raw, 0.0))))) if c1.any() else 0
+    C["max_floor_fraction_used_1e-6"] = int(min(1e15, 1e6 * max(cal[0], 0.0)))
     res["digest"] = dg.hex()
     return res
 
